@@ -185,6 +185,9 @@ func (d *DeviceRemote) UseCases() []model.UseCaseInformationDataType {
 	entity := d.Entity(DeviceInformationAddressEntity)
 
 	nodemgmt := d.FeatureByEntityTypeAndRole(entity, model.FeatureTypeTypeNodeManagement, model.RoleTypeSpecial)
+	if nodemgmt == nil {
+		return nil
+	}
 
 	data, ok := nodemgmt.DataCopy(model.FunctionTypeNodeManagementUseCaseData).(*model.NodeManagementUseCaseDataType)
 	if ok && data != nil {
